@@ -341,7 +341,10 @@ def run_case(case: dict[str, Any]) -> dict[str, Any]:
                 req += [h for h in bg_handlers if matches(specs[h], labels) and h not in exited_own]
                 # a daemon that has exited on its own still "matches" the object; nothing re-evaluates the finalizer until the next event of
                 # the object (and then it is released): both states are acceptable for a live object in that case
-                req_loose = req + [h for h in bg_handlers if matches(specs[h], labels) and h in exited_own]
+                # ... but only until the next event: a version written after the exit means an event was processed since, which re-evaluates it
+                t_exit = {c['h']: rets[c['seq']]['t'] for c in ix.calls if c['uid'] == uid and c['inc'] == inc and c['kind'] == 'daemon' and c['seq'] in rets and c['h'] in exited_own}
+                req_loose = req + [h for h in bg_handlers if matches(specs[h], labels) and h in exited_own
+                                   and not any(v['t'] > t_exit.get(h, 0.0) + 0.05 and v['g'] <= gq for v in versions)]
                 if bool(req) != kopf_fin(body) and bool(req_loose) != kopf_fin(body):
                     viol.append({'mech': 'finalizer-presence', 'msg': f"{uid}: at quiescence the framework's finalizer is {'present' if kopf_fin(body) else 'absent'} although "
                                  f"{'handlers ' + str(req) + ' require it' if req else 'no handler requires it'}", 'witness': {'labels': labels, 'finalizers': body['metadata'].get('finalizers')}})
